@@ -1,0 +1,21 @@
+//go:build verif
+
+// Verification hook (build tag "verif" only): runs the unexported endpointSliceCache on given
+// slices. No behaviour change; absent from normal builds.
+
+package controller
+
+import (
+	"istio.io/istio/pilot/pkg/model"
+	"istio.io/istio/pkg/config/host"
+)
+
+// VerifC17SliceCacheGet stores the given slices of one service in a fresh endpointSliceCache, in
+// the given order, and returns what get() yields for the service.
+func VerifC17SliceCacheGet(hostname host.Name, names []string, endpoints [][]*model.IstioEndpoint) []*model.IstioEndpoint {
+	c := newEndpointSliceCache()
+	for i, n := range names {
+		c.Update(hostname, n, endpoints[i])
+	}
+	return c.Get(hostname)
+}
